@@ -1268,30 +1268,25 @@ pub fn lookup_sat<Cfg: GenericConfig<D, F = F>>(data: &CircuitData<F, Cfg, D>, v
                 *counts.entry((i, o)).or_insert(0) += 1;
             }
         }
-        // table rows: last_lut_gate ..= first_lut_gate, entry e at row first_lut_gate - e / n, col e % n
+        // table rows: last_lut_gate ..= first_lut_gate, entry e at row first_lut_gate - e / n, col e % n;
+        // slots beyond the table hold its first entry (the verifier's table polynomial is padded the
+        // same way), and whatever multiplicity they carry counts for that entry.
         let n_rows = lw.first_lut_gate + 1 - lw.last_lut_gate;
+        let mut mult: BTreeMap<(u64, u64), u64> = BTreeMap::new();
         for e in 0..n_rows * num_lut_entries {
             let row = lw.first_lut_gate - e / num_lut_entries;
             let col = e % num_lut_entries;
             let i = cu(values[row * nw + LookupTableGate::wire_ith_looked_inp(col)]);
             let o = cu(values[row * nw + LookupTableGate::wire_ith_looked_out(col)]);
             let m = cu(values[row * nw + LookupTableGate::wire_ith_multiplicity(col)]);
-            if e < table.len() {
-                if (table[e].0 as u64, table[e].1 as u64) != (i, o) {
-                    return Err(format!("lookup:table{li}:entry{e}:table-row-mismatch"));
-                }
-                // duplicates in the table: the multiplicity of a pair is split over its copies; the
-                // argument only needs the per-pair totals to match
-                let _ = m;
+            let want = if e < table.len() { table[e] } else { table[0] };
+            if (want.0 as u64, want.1 as u64) != (i, o) {
+                return Err(format!("lookup:table{li}:entry{e}:table-row-mismatch"));
             }
+            let ent = mult.entry((i, o)).or_insert(0);
+            *ent = addm(*ent, m);
         }
-        let mut mult: BTreeMap<(u64, u64), u64> = BTreeMap::new();
-        for e in 0..table.len() {
-            let row = lw.first_lut_gate - e / num_lut_entries;
-            let col = e % num_lut_entries;
-            let m = cu(values[row * nw + LookupTableGate::wire_ith_multiplicity(col)]);
-            *mult.entry((table[e].0 as u64, table[e].1 as u64)).or_insert(0) += m;
-        }
+        mult.retain(|_, m| *m != 0);
         for (k, c) in &counts {
             if mult.get(k).copied().unwrap_or(0) != *c {
                 return Err(format!("lookup:table{li}:multiplicity-of-{:?}", k));
@@ -1307,3 +1302,53 @@ pub fn lookup_sat<Cfg: GenericConfig<D, F = F>>(data: &CircuitData<F, Cfg, D>, v
 }
 
 pub fn _unused<T: RichField>(_c: &CommonCircuitData<F, D>, _f: FriConfig) {}
+
+/// The assignment the prover will actually commit to when handed `values` with the prover-owned
+/// lookup cells unset: padding slots take the first table entry, multiplicities are the number of
+/// occurrences of each table input among the looking targets plus the padding (a harness-side
+/// restatement of the documented behaviour of `set_lookup_wires`). `lenient`: a looked-up input
+/// missing from the table contributes nothing (knob H1e) instead of aborting.
+/// Err = the prover cannot proceed (looked-up input not in the table and not lenient).
+pub fn apply_lookup_padding<Cfg: GenericConfig<D, F = F>>(
+    data: &CircuitData<F, Cfg, D>,
+    values: &[F],
+    lenient: bool,
+) -> Result<Vec<F>, String> {
+    use plonky2::gates::lookup::LookupGate;
+    use plonky2::gates::lookup_table::LookupTableGate;
+    let cfg = &data.common.config;
+    let nw = cfg.num_wires;
+    let degree = data.common.degree();
+    let num_entries = cfg.num_routed_wires / 2;
+    let num_lut_entries = cfg.num_routed_wires / 3;
+    let mut out = values.to_vec();
+    for (li, lw) in data.prover_only.lookup_rows.iter().enumerate() {
+        let table = &data.common.luts[li];
+        let mut mult = vec![0u64; table.len()];
+        for (inp_t, _) in data.prover_only.lut_to_lookups[li].iter() {
+            let v = cu(values[inp_t.index(nw, degree)]);
+            // the prover keys a hash map by table input: the LAST entry with that input wins
+            match table.iter().rposition(|(a, _)| *a as u64 == v) {
+                Some(p) => mult[p] += 1,
+                None => {
+                    if !lenient {
+                        return Err(format!("looked-up input {v} not in table {li}"));
+                    }
+                }
+            }
+        }
+        let used = data.prover_only.lut_to_lookups[li].len();
+        let remaining = (num_entries - (used % num_entries)) % num_entries;
+        for slot in (num_entries - remaining)..num_entries {
+            out[(lw.last_lut_gate - 1) * nw + LookupGate::wire_ith_looking_inp(slot)] = fe(table[0].0 as u64);
+            out[(lw.last_lut_gate - 1) * nw + LookupGate::wire_ith_looking_out(slot)] = fe(table[0].1 as u64);
+            mult[0] += 1;
+        }
+        for e in 0..table.len() {
+            let row = lw.first_lut_gate - e / num_lut_entries;
+            let col = e % num_lut_entries;
+            out[row * nw + LookupTableGate::wire_ith_multiplicity(col)] = fe(mult[e]);
+        }
+    }
+    Ok(out)
+}
